@@ -5,6 +5,7 @@ CONSTANTS
   Heads <- DHeads
   Menu <- DMenu
   Plans <- DPlans
+  Wraps <- DWraps
   NoBarChoices <- DNoBar
   ArgVecs <- MCArgVecs
   CheckArgs = {2}
